@@ -487,7 +487,8 @@ SPEC = Spec(
         "the order string reshape() stores is the one its check validated "
         "(normalised), and the values lowering distinguishes are the admitted "
         "ones. R02-SIBLING: the three index-lowering rules handle integer and "
-        "slice indices identically (sibling cross-check)."),
+        "slice indices identically (sibling cross-check). "
+        "R02-BIND also: concatenate offsets are taken from the list of upper bounds (running sum), the upper bounds accumulate; in the einsum lowering the broadcast test comes first in the per-axis loop, for every descriptor kind. R02-DOMAIN also: a group of axes reshaped onto itself passes its index variables through at any rank."),
     not_decided=(
         "The index arithmetic itself (slice normalisation, reshape stride/modulo, "
         "roll sign, concatenate offsets, advanced-index axis placement): a "
